@@ -25,7 +25,10 @@ CLAIMED = {
     "C03": ("Lean 4 invariant proof by induction over arbitrary operation histories (size = 2^n, unit norm; allocation = psi ⊗ |0>) "
             "+ differential correspondence + norm/size oracle on the real simulator after every operation",
             "Proof for every finite history on the model; drift of the real floating-point state is monitored, not proved.",
-            "Trusted: as C01. The qubit-handle half is decided on the evaluator's qubit-book machine (see level_note in DESIGN.md §4 C03).",
+            "Trusted: as C01. The qubit-handle half is a theorem about the evaluator's qubit book (free list + owners): after any history of "
+            "declarations, constructions and destructions live handles are pairwise distinct and inside the register, and a new handle "
+            "never aliases a live one; tied to the evaluator by programs whose OpenQASM text reveals the index behind every handle. "
+            "Known finding: a handle copied out of a dying object (C03-copied-field-handle).",
             "DESIGN.md §4 C03"),
     "C04": ("Lean 4 theorems about the model of QasmSimulator::reset (target amplitudes zero, unit norm, reduced state of the other "
             "qubits preserved on average over the reset's own branch) + differential correspondence with both branches forced",
